@@ -162,3 +162,34 @@ func HarnessC16Shift() {
 		}
 	}
 }
+
+// (d) a compile error raised inside an included / extended / imported file names THAT file
+// and points inside THAT file's source (the includer's tag sits elsewhere).
+func HarnessC16Include() {
+	inc := c16Source()
+	verifObserve("inc", inc)
+	via := []string{"{% include \"inc\" %}", "{% extends \"inc\" %}", "{% import \"inc\" m %}", "{% ssi \"inc\" parsed %}"}[verifChoice(4)]
+	main := "line one\n\n     " + via + "\n"
+	set := NewSet("verif", &memLoader{files: map[string]string{"inc": inc, "main": main}})
+	_, err := set.FromFile("main")
+	if err == nil {
+		return
+	}
+	e, ok := err.(*Error)
+	verifAssert(ok, "compile error must be a *pongo2.Error")
+	verifObserve("file", e.Filename)
+	verifObserve("line", e.Line)
+	verifObserve("col", e.Column)
+	verifAssert(e.Filename == "inc" || e.Filename == "main", "compile error must name one of the templates involved")
+	if e.Line > 0 {
+		src := main
+		if e.Filename == "inc" {
+			src = inc
+		}
+		off := c16Offset(src, e.Line, e.Column)
+		verifAssert(off >= 0 && off <= len(src), "error position lies outside the source of the template it names")
+		if e.Token != nil && e.Token.Typ != TokenError && e.Token.Filename == e.Filename {
+			c16CheckToken(src, e.Token)
+		}
+	}
+}
